@@ -14,6 +14,7 @@ class C08(Oracle):
             "doc": 1, "bundle": 3, "fbundle": rng.choice([0, 1]), "add_ns": 4,
             "set_default": rng.choice([0, 1]), "rec": 24, "add_attrs": 4,
             "unified": 6, "add_record": rng.choice([0, 2]), "update": rng.choice([0, 1]),
+            "get_record_absent": rng.choice([0, 3]), "peek": rng.choice([0, 2]), "get_record": rng.choice([0, 1]),
         }
         kinds_mode = rng.randrange(3)
         from .. import pools
